@@ -5,6 +5,7 @@ package c03
 import (
 	"fmt"
 
+	bpmn "github.com/olive-io/bpmn/v2"
 	"github.com/olive-io/bpmn/v2/verifrt"
 
 	"verif/harness/drv"
@@ -82,6 +83,74 @@ func scn(n, m, acts, bound int) *h.Scn {
 	return sc
 }
 
+// racing (discipline R): the N upstream tasks of an activation are answered from N goroutines
+// at once, so that the tokens reach the gateway at practically the same moment and the
+// scheduler decides how their arrivals interleave inside the gateway. Checked at quiescence:
+// every answer has returned, exactly the M downstream tasks are requested, once each, and after
+// answering them (also from their own goroutines) the next activation starts or the instance
+// completes.
+func racing(n, m, acts int) func() {
+	g := build(n, m, acts)
+	defs := g.Parse()
+	return func() {
+		sig := "C03/pargw-race"
+		r := drv.Open(g, defs, drv.OpenOpts{Vars: map[string]any{"n": 0}})
+		var w *drv.Wait
+		r.AfterStart = func() { w = r.WaitComplete(nil) }
+		r.StartAll()
+		for act := 1; act <= acts; act++ {
+			for phase, prefix := range []string{"u", "d"} {
+				want := n
+				if phase == 1 {
+					want = m
+				}
+				verifrt.WaitIdle()
+				pend := r.PendingIDs()
+				ok := len(pend) == want
+				for i := 0; ok && i < want; i++ {
+					ok = pend[i] == fmt.Sprintf("%s%d", prefix, i+1)
+				}
+				if !ok {
+					clause := "/not-requested"
+					if len(pend) > want {
+						clause = "/requested-too-often"
+					}
+					h.Fail(sig+clause, "activation %d: the %d %s-tasks should be requested once each, unanswered requests are %v (all upstream answers of an activation are issued at once)", act, want, map[string]string{"u": "upstream", "d": "downstream"}[prefix], pend)
+					return
+				}
+				returned := 0
+				for i := 1; i <= want; i++ {
+					p := r.Pending(fmt.Sprintf("%s%d", prefix, i))
+					p.Answered = true
+					go func() { p.T.Do(); returned++ }()
+				}
+				verifrt.WaitIdle()
+				if returned != want {
+					h.Fail(sig+"/do-returns", "activation %d: %d of %d Do calls returned", act, returned, want)
+					return
+				}
+			}
+			p := r.Pending("cnt")
+			if p == nil || len(r.PendingIDs()) != 1 {
+				h.Fail(sig+"/not-requested", "activation %d: after all downstream tasks were answered the counter task should be the only request, unanswered requests are %v", act, r.PendingIDs())
+				return
+			}
+			r.Answer(p, bpmn.DoWithResults(map[string]any{"n": int64(act)}))
+		}
+		verifrt.WaitIdle()
+		if len(r.PendingIDs()) != 0 {
+			h.Fail(sig+"/requested-too-often", "after the last activation further requests appeared: %v", r.PendingIDs())
+			return
+		}
+		if w == nil || !w.Returned || !w.Result {
+			h.Fail(sig+"/completes", "all %d activations are through but the instance has not completed; live: %v", acts, verifrt.LiveRepoGoroutines())
+		}
+		if len(r.Grammar) > 0 {
+			h.Fail("C09/engine/causal-order", "%s", r.Grammar[0])
+		}
+	}
+}
+
 func init() {
 	h.Register("C03", func(tier string) ([]*h.Scn, []*h.Plain) {
 		var out []*h.Scn
@@ -94,7 +163,9 @@ func init() {
 					if n*m <= 6 || thorough {
 						out = append(out, scn(n, m, 3, 0))
 					}
-					out = append(out, scn(n, m, 1, 1))
+					if thorough || n*m <= 4 || (n == 3 && m == 1) || (n == 1 && m == 3) {
+						out = append(out, scn(n, m, 1, 1))
+					}
 				}
 				if n <= 2 && m <= 2 {
 					out = append(out, scn(n, m, 2, 1))
@@ -110,6 +181,32 @@ func init() {
 					if (n == 4 || m == 4) && n*m <= 8 {
 						out = append(out, scn(n, m, 1, 1))
 					}
+				}
+			}
+		}
+		for n := 2; n <= 4; n++ {
+			for m := 1; m <= 3; m++ {
+				if n == 4 && m > 2 {
+					continue
+				}
+				acts := 2
+				bounds := []int{0, 1}
+				if thorough && n <= 3 && m <= 2 {
+					bounds = append(bounds, 2)
+				}
+				for _, d := range bounds {
+					if d == 1 && !thorough && (n > 3 || m > 2) {
+						continue
+					}
+					sc := &h.Scn{Name: fmt.Sprintf("C03/pargw-race/N%dM%d/act%d/d%d", n, m, acts, d), Body: racing(n, m, acts), Opts: verifrt.Options{Bound: d, UseCache: true}}
+					sc.Weight = n * m * (1 + 1500*d*d)
+					if d == 1 {
+						sc.Split = 4
+					}
+					if d >= 2 {
+						sc.Split = 16
+					}
+					out = append(out, sc)
 				}
 			}
 		}
